@@ -240,6 +240,7 @@ def big_int_boundaries(ctx, n):
     import hashlib
     from pyab_experiment.binning import binning
     rng = ctx.rng
+    pending = []
     for k in range(n):
         ident = "unit-%d" % rng.randrange(10 ** 9)
         h = int.from_bytes(hashlib.md5(ident.encode("utf-8")).digest()[:4], "big")
@@ -254,11 +255,24 @@ def big_int_boundaries(ctx, n):
                 "weights-tuple": common.outcome_of(lambda: binning.deterministic_choice(ident, tuple(pop), weights=tuple(ws)))}
         ctx.case(("bigint", ident, s_), True)
         ctx.count("variant:big-int-boundary")
+        pending.append((ident, h, s_, a, ws, outs))
         for form, out in outs.items():
             if out != {"g": {"s": "first"}}:
                 ctx.violation(f"id {ident!r} has position {h}/2^32; with integer weights [{h}*2^{s_}+1, 2^{32 + s_}-({h}*2^{s_}+1)] ({form}) the scaled position {h}*2^{s_} is below "
                               f"the first running total, so the first item is due: got {json.dumps(out)}", {"id": ident, "h": h, "shift": s_, "form": form, "impl": out})
                 break
+    if ctx.driver_ok and pending:
+        try:
+            reqs = []
+            for ident, h, s_, a, ws, outs in pending:
+                reqs += [choicelib.model_choice_req(h, 2, weights=ws), choicelib.model_choice_req(h, 2, cum_weights=[a, 2 ** (32 + s_)])]
+            ans = common.run_driver(reqs)
+            for i, (ident, h, s_, a, ws, outs) in enumerate(pending):
+                for form, an in zip(("weights", "cum_weights"), ans[2 * i: 2 * i + 2]):
+                    if choicelib.model_to_outcome(an, ["first", "second"]) != outs[form]:
+                        ctx.tie_break("choice-big-int", {"id": ident, "h": h, "shift": s_, "form": form, "impl": outs[form], "model": an})
+        except Exception as ex:  # noqa
+            ctx.obligation_breaks.append({"what": "model-driver-run", "detail": repr(ex)[:300]})
 
 
 def run(ctx):
